@@ -1,6 +1,8 @@
 import CifModel.Props.C07
 import CifModel.Lemmas.ParserTrace
 import CifModel.Model.ParserStoreOps
+import CifModel.Lemmas.ParserStoreRun
+import CifModel.Lemmas.ParserStoreRunF
 /-
   Props/C07Parser — property C07, storing route `parser`: the values cif_parse stores are read back identical.
 
@@ -105,6 +107,114 @@ theorem C07_parser_route (o : Opts) (pol : Policy) (pre : Cif) (units : Str) :
   · rintro path vals rfl s l names hinv hvals hok
     obtain ⟨_, _, _, h4, _⟩ := C07_stored_read_identical s hinv
     exact h4 l _ (fun e he => ⟨C07_numbFree_constructible e.2 (hwf e.2 (List.of_mem_zip he).2), hvals e.2 (List.of_mem_zip he).2⟩) hok
+
+/-- **C07_parser_route_store_partial** (group gX) — the route `parser` in the REAL COMPOSED STATE, for parses that create no save frame
+    into a new CIF: let the `j`-th recorded call be cif_container_set_value(path, n, v).  The `j` calls before it, translated into a
+    store history (`storeOpsFrom`) and run through `Store.step` behind cif_create, lead to a world `w` (the state in which the parser
+    makes the call).  There is a container handle `h` of that world such that the call `setVal h n v` is in contract, returns CIF_OK and
+    leads to a world whose CIF shows exactly the parser model's next target (so `h` denotes the container at `path`), and then
+    cif_container_get_value on `h` under the same name delivers `v` — when the item is new to the container (the parser's normal
+    path) or its loop has a packet.  No `InvS` / autocommit / handle hypothesis: the state is the parser's own. -/
+theorem C07_parser_route_store_partial (o : Opts) (pol : Policy) (units : Str)
+    (hnf : ParserSim.noFrames (storeTrace o pol [] units) = true) (j : Nat) (path : Path) (n : Str) (v : V)
+    (hj : (storeTrace o pol [] units)[j]? = some (SOp.setVal path n v)) :
+    ∃ sops h, storeOpsFrom o {} ((storeTrace o pol [] units).take j) = some sops ∧
+      let w := (Store.run (Store.step {} .cifNew).1 sops).1
+      let before := ((storeTrace o pol [] units).take j).foldl (fun c op => op.apply o c) []
+      let sop := Store.Op.setVal h (some (mkName o true n)) (some v)
+      Store.inContract w sop = true ∧ (Store.step w sop).2.rc = some Gen.ErrCodes.CIF_OK ∧
+      (∃ s', (Store.step w sop).1.cifs = [some s'] ∧ Store.abs s'.db = (SOp.setVal path n v).apply o before) ∧
+      ((∀ cc, getIn o.norm path before = some cc →
+          hasItem o.norm cc (o.norm n) = false ∨
+            ∀ l ∈ cc.loops, (l.names.any fun x => o.norm x == o.norm n) = true → l.packets ≠ []) →
+        ∃ amb, (Store.step (Store.step w sop).1 (.getVal h (some (mkName o true n)))).2 =
+          { rc := some (if amb = true then Gen.ErrCodes.CIF_AMBIGUOUS_ITEM else Gen.ErrCodes.CIF_OK), out := .value v }) := by
+  obtain ⟨sops, m, s, last, hs, hr, ht⟩ := ParserSim.prefix_rep o pol units hnf j
+  have hokr0 : OkR o ([] : Cif) := ⟨⟨by simp [normCodes], by simp [OkCs]⟩, by simp [RectCif, RectCs]⟩
+  have hokr : OkR o (Store.absS s.db).tree := by rw [ht]; exact trace_prefix_okR o pol [] units hokr0 j
+  have hwf := storeTrace_wf o pol [] units _ (List.mem_of_getElem? hj)
+  have hres : ResL o.norm path (Store.absS s.db).tree := by rw [ht]; exact trace_paths_resolve o pol [] units j _ hj
+  obtain ⟨h, hm⟩ := ParserSim.ch_of_res o m _ s last hr path hres
+  refine ⟨sops, h, hs, ?_⟩
+  obtain ⟨hin, hrc, s', hr', ht'⟩ := ParserSim.rep_setVal o m _ s last path n v h hr hm hwf hokr
+  refine ⟨hin, hrc, ⟨s', hr'.cifs, ?_⟩, ?_⟩
+  · rw [← Store.absS_tree, ht', ht]
+  · intro hcase
+    exact ParserSim.rep_setVal_reads o m _ s last path n v h hr hm hwf hokr (by rw [ht]; exact hcase)
+
+/-- **C07_parser_route_store** (group gX) — the route `parser` in the REAL COMPOSED STATE, for EVERY parse into a new CIF (save frames
+    included): let the `j`-th recorded call be cif_container_set_value(path, n, v).  The `j` calls before it have a translation into a
+    store history; run through `Store.step` behind cif_create they lead to the world `w` in which the parser makes the call.  There is
+    a container handle `h` of `w` such that `setVal h n v` is in contract, returns CIF_OK and leads to a world whose CIF shows exactly
+    the parser model's next target (so `h` denotes the container at `path`), and cif_container_get_value on `h` under the same name
+    then delivers `v` — when the item is new to the container (the parser's normal path) or its loop has a packet. -/
+theorem C07_parser_route_store (o : Opts) (pol : Policy) (units : Str) (j : Nat) (path : Path) (n : Str) (v : V)
+    (hj : (storeTrace o pol [] units)[j]? = some (SOp.setVal path n v)) :
+    ∃ sops h, storeOpsFrom o {} ((storeTrace o pol [] units).take j) = some sops ∧
+      let w := (Store.run (Store.step {} .cifNew).1 sops).1
+      let before := ((storeTrace o pol [] units).take j).foldl (fun c op => op.apply o c) []
+      let sop := Store.Op.setVal h (some (mkName o true n)) (some v)
+      Store.inContract w sop = true ∧ (Store.step w sop).2.rc = some Gen.ErrCodes.CIF_OK ∧
+      (∃ s', (Store.step w sop).1.cifs = [some s'] ∧ Store.abs s'.db = (SOp.setVal path n v).apply o before) ∧
+      ((∀ cc, getIn o.norm path before = some cc →
+          hasItem o.norm cc (o.norm n) = false ∨
+            ∀ l ∈ cc.loops, (l.names.any fun x => o.norm x == o.norm n) = true → l.packets ≠ []) →
+        ∃ amb, (Store.step (Store.step w sop).1 (.getVal h (some (mkName o true n)))).2 =
+          { rc := some (if amb = true then Gen.ErrCodes.CIF_AMBIGUOUS_ITEM else Gen.ErrCodes.CIF_OK), out := .value v }) := by
+  obtain ⟨sops, m, s, last, hs, hr, ht⟩ := ParserSimF.prefix_rep o pol units j
+  have hokr0 : OkR o ([] : Cif) := ⟨⟨by simp [normCodes], by simp [OkCs]⟩, by simp [RectCif, RectCs]⟩
+  have hokr : OkR o (Store.absS s.db).tree := by rw [ht]; exact trace_prefix_okR o pol [] units hokr0 j
+  have hwf := storeTrace_wf o pol [] units _ (List.mem_of_getElem? hj)
+  have hres : ResL o.norm path (Store.absS s.db).tree := by rw [ht]; exact trace_paths_resolve o pol [] units j _ hj
+  obtain ⟨h, hm⟩ := ParserSimF.ch_of_res o m _ s last hr path hres
+  refine ⟨sops, h, hs, ?_⟩
+  obtain ⟨hin, hrc, s', hr', ht'⟩ := ParserSimF.rep_setVal o m _ s last path n v h hr hm hwf hokr
+  refine ⟨hin, hrc, ⟨s', hr'.cifs, ?_⟩, ?_⟩
+  · rw [← Store.absS_tree, ht', ht]
+  · intro hcase
+    exact ParserSimF.rep_setVal_reads o m _ s last path n v h hr hm hwf hokr (by rw [ht]; exact hcase)
+
+private theorem isSetVal_elim (x : Option SOp) (h : (x.map fun | .setVal .. => true | _ => false) = some true) :
+    ∃ p n v, x = some (.setVal p n v) := by
+  cases x with
+  | none => cases h
+  | some op => cases op <;> first | exact ⟨_, _, _, rfl⟩ | cases h
+
+def C07Parser.lower' (s : Str) : Str := s.map fun c => if 65 ≤ c ∧ c ≤ 90 then c + 32 else c
+def C07Parser.opts' : Opts :=
+  { dia := .cif2, maxFrameDepth := 1, unfold := true, prem := true, notUtf8 := false, store := true, norm := C07Parser.lower', normKey := id }
+
+set_option maxRecDepth 100000 in
+/-- `C07_parser_route_store_partial` applies: `data_a _x 1 _y 2` creates no save frame, its call number 2 is a set_value -/
+example : ∃ path n v, (storeTrace C07Parser.opts' acceptAll [] (a!"data_a _x 1 _y 2"))[2]? = some (SOp.setVal path n v) ∧
+    ∃ sops h, storeOpsFrom C07Parser.opts' {} ((storeTrace C07Parser.opts' acceptAll [] (a!"data_a _x 1 _y 2")).take 2) = some sops ∧
+      (Store.step (Store.run (Store.step {} .cifNew).1 sops).1
+        (.setVal h (some (mkName C07Parser.opts' true n)) (some v))).2.rc = some Gen.ErrCodes.CIF_OK := by
+  have h : ParserSim.noFrames (storeTrace C07Parser.opts' acceptAll [] (a!"data_a _x 1 _y 2")) = true ∧
+      ((storeTrace C07Parser.opts' acceptAll [] (a!"data_a _x 1 _y 2"))[2]?.map fun | .setVal .. => true | _ => false) = some true := by
+    decide +kernel
+  obtain ⟨p, n, v, hj⟩ := isSetVal_elim _ h.2
+  obtain ⟨sops, hh, hs, _, hrc, _⟩ := C07_parser_route_store_partial C07Parser.opts' acceptAll (a!"data_a _x 1 _y 2") h.1 2 p n v hj
+  exact ⟨p, n, v, hj, sops, hh, hs, hrc⟩
+
+set_option maxRecDepth 100000 in
+/-- `C07_parser_route_store` applies inside a SAVE FRAME: in `data_a save_f _y 2 save_` call number 2 is the set_value of `_y` in the
+    frame (calls: create_block, create_frame, set_value, prune, prune) -/
+example : ∃ path n v, (storeTrace C07Parser.opts' acceptAll [] (a!"data_a save_f _y 2 save_"))[2]? = some (SOp.setVal path n v) ∧
+    path.length = 2 ∧
+    ∃ sops h, storeOpsFrom C07Parser.opts' {} ((storeTrace C07Parser.opts' acceptAll [] (a!"data_a save_f _y 2 save_")).take 2) = some sops ∧
+      (Store.step (Store.run (Store.step {} .cifNew).1 sops).1
+        (.setVal h (some (mkName C07Parser.opts' true n)) (some v))).2.rc = some Gen.ErrCodes.CIF_OK := by
+  have h : ((storeTrace C07Parser.opts' acceptAll [] (a!"data_a save_f _y 2 save_"))[2]?.map fun | .setVal .. => true | _ => false) = some true ∧
+      ((storeTrace C07Parser.opts' acceptAll [] (a!"data_a save_f _y 2 save_"))[2]?.map fun | .setVal p .. => p.length | _ => 0) = some 2 := by
+    decide +kernel
+  obtain ⟨p, n, v, hj⟩ := isSetVal_elim _ h.1
+  have hlen : p.length = 2 := by
+    have := h.2
+    rw [hj] at this
+    simpa using this
+  obtain ⟨sops, hh, hs, _, hrc, _⟩ := C07_parser_route_store C07Parser.opts' acceptAll (a!"data_a save_f _y 2 save_") 2 p n v hj
+  exact ⟨p, n, v, hj, hlen, sops, hh, hs, hrc⟩
 
 /-- the hypotheses on the value are those the parser's values satisfy: a nested value without number objects is constructible -/
 example : C07_constructible (.lst [.chr false (a!"1.5"), .tbl [((a!"k"), (a!"k"), .unk)], .na]) :=
